@@ -1,10 +1,12 @@
 package goja
 
 import (
+	"hash/maphash"
 	"math"
 	"math/bits"
 	"reflect"
 	"strconv"
+	"unsafe"
 
 	"github.com/dop251/goja/unistring"
 )
@@ -14,6 +16,14 @@ type objectGoSlice struct {
 	data       *[]interface{}
 	lengthProp valueProperty
 	origIsPtr  bool
+	hashID     uintptr // the address of data when first used as a key (see objectGoReflect.hashID)
+}
+
+func (o *objectGoSlice) hashIdentity(*maphash.Hash) (uint64, bool) {
+	if o.hashID == 0 {
+		o.hashID = uintptr(unsafe.Pointer(o.data))
+	}
+	return uint64(o.hashID), true
 }
 
 func (r *Runtime) newObjectGoSlice(data *[]interface{}, isPtr bool) *objectGoSlice {
